@@ -1,4 +1,6 @@
 import WfProofs.KeyedLockGlobal
+import WfProofs.KeyedLockExt
+import WfProofs.KeyedLockRefine
 /-!
 # C25 — the keyed lock gives per-key mutual exclusion and cleans up
 
@@ -279,3 +281,150 @@ example :
     | 2 => exact ⟨2, Nat.le_refl _, by decide⟩
     | n + 3 => rw [hstable n] at hn; exfalso; revert hn; decide
 
+
+/-! ## extensions: draining, cancelled waiters -/
+
+/-- Deadlock freedom of every key, from every reachable state: there is a continuation
+made of fairness steps for `k` only (holder leaves / scheduled head of the queue runs — no
+cancellation, no help from other keys), at most `holders + 2·waiters` long, after which key
+`k` has no lock state at all.  So whatever the history (cancellations at any await
+included), a key never gets into a state from which its entry cannot be cleaned up. -/
+theorem C25_key_drains (acts : List Act) (k : Nat) :
+    ∃ cont : List Act, cont.length ≤ drainMeasure ((run acts).slot k) ∧
+      progressCount k (run acts) cont = cont.length ∧ (∀ x ∈ cont, x.key = k) ∧
+      (run (acts ++ cont)).slot k = {} := by
+  obtain ⟨cont, h1, h2, h3, h4⟩ := c25x_drain (k := k) _ (ginv_run acts) (Nat.le_refl _)
+  exact ⟨cont, h1, h2, h3, by rw [run_append]; exact h4⟩
+
+/-- non-vacuity: holder 1, cancelled waiter 2, live waiter 3: measure 5, and the state is not empty. -/
+example :
+    drainMeasure ((run [⟨7, .enter 1⟩, ⟨7, .enter 2⟩, ⟨7, .enter 3⟩, ⟨7, .cancel 2⟩]).slot 7) = 5 ∧
+    (run [⟨7, .enter 1⟩, ⟨7, .enter 2⟩, ⟨7, .enter 3⟩, ⟨7, .cancel 2⟩]).slot 7 ≠ {} ∧
+    (run ([⟨7, .enter 1⟩, ⟨7, .enter 2⟩, ⟨7, .enter 3⟩, ⟨7, .cancel 2⟩] ++
+          [⟨7, .exit 1⟩, ⟨7, .resume 2⟩, ⟨7, .resume 3⟩, ⟨7, .exit 3⟩])).slot 7 = {} := by decide
+
+/-- A cancelled waiter (cancelled while pending, or after it had been handed the lock)
+never has to wait for anybody: in every reachable state its next task step is enabled,
+removes it from the queue and the refcount, and lets nobody into the critical section
+in its place by that step (the hand-over to the next waiter is a wake-up, see
+`C25_no_lost_wakeup`). -/
+theorem C25_cancelled_waiter_leaves (acts : List Act) (k a : Nat) (l : Lock)
+    (hl : ((run acts).slot k).lock = some l)
+    (hc : findW a l.waiters = some .cancelled ∨ findW a l.waiters = some .wokenCancelled) :
+    ∃ s', step (run acts) ⟨k, .resume a⟩ = .ok s' ∧ a ∉ ids (s'.slot k) ∧
+      (s'.slot k).inside = ((run acts).slot k).inside := by
+  have hg := ginv_run acts
+  obtain ⟨st', hst, h1, h2⟩ := c25x_cancelled_leaves (hg.2 k).1 (hg.2 k).2 hl hc
+  refine ⟨(run acts).set k st', by simp [step, hg.1, hst], ?_, ?_⟩ <;> simpa [KL.set]
+
+example :
+    ((run [⟨7, .enter 1⟩, ⟨7, .enter 2⟩, ⟨7, .enter 3⟩, ⟨7, .exit 1⟩, ⟨7, .cancel 2⟩]).slot 7).lock
+      = some ⟨false, [(2, .wokenCancelled), (3, .pending)]⟩ := by decide
+
+/-! ## refinement: KeyedLock is a per-key FIFO ticket lock -/
+
+/-- For every history and every key, the lock state of key `k` (who is inside, the FIFO
+queue with who is cancelled), seen through the abstraction `absK` that forgets `_refs`,
+the `_locks` entry, `_locked` and the future states, is exactly the state of the
+specification (`WfModel/KeyedLockSpec.lean`: one holder, one FIFO queue, entitlement by
+position, no wake-ups, no refcounts) after the actions of the history that are on key `k`
+— actions on other keys do not appear at all. -/
+theorem C25_refines_ticket_lock (acts : List Act) (k : Nat) :
+    absK ((run acts).slot k) = specRun k acts := by
+  have := c25x_refines_run acts k ginv_init
+  simpa [specRun, absK, init] using this
+
+/-- non-vacuity: hand-over past a cancelled waiter, with interleaved actions on another key. -/
+example :
+    specRun 7 [⟨7, .enter 1⟩, ⟨7, .enter 2⟩, ⟨8, .enter 1⟩, ⟨7, .enter 3⟩, ⟨7, .cancel 2⟩, ⟨7, .exit 1⟩,
+               ⟨7, .enter 4⟩] = ⟨none, [(2, .cancelled), (3, .waiting), (4, .waiting)]⟩ ∧
+    specRun 7 [⟨7, .enter 1⟩, ⟨7, .enter 2⟩, ⟨7, .exit 1⟩, ⟨7, .cancel 2⟩, ⟨7, .enter 3⟩] =
+      ⟨none, [(2, .grantCancelled), (3, .waiting)]⟩ := by decide
+
+/-- The refinement is action by action and covers enabledness: in every reachable state
+an action succeeds in the implementation model iff the specification enables it, and then
+the resulting states correspond (so no implementation step is invisible to, or refused by, the
+specification: wake-ups, refcounts and entry creation/deletion are pure bookkeeping). -/
+theorem C25_refines_ticket_lock_step (acts : List Act) (x : Act) :
+    tstep (absK ((run acts).slot x.key)) x.act =
+      (match step (run acts) x with
+       | .ok s' => some (absK (s'.slot x.key))
+       | .error _ => none) := by
+  have hg := ginv_run acts
+  rw [c25x_refines_step x.act (hg.2 x.key).1]
+  simp only [step, hg.1]
+  cases kstep false ((run acts).slot x.key) x.act <;> simp [KL.set]
+
+example :
+    tstep (absK ((run [⟨7, .enter 1⟩, ⟨7, .enter 2⟩]).slot 7)) (.resume 2) = none ∧
+    tstep (absK ((run [⟨7, .enter 1⟩, ⟨7, .enter 2⟩, ⟨7, .exit 1⟩]).slot 7)) (.resume 2) = some ⟨some 2, []⟩ := by
+  decide
+
+/-- The abstraction loses nothing about emptiness: in a reachable state key `k` has lock
+state (`_locks`/`_refs` entry, holder) iff the specification has a holder or a waiter. -/
+theorem C25_spec_empty_iff (acts : List Act) (k : Nat) :
+    specRun k acts = {} ↔ (run acts).slot k = {} := by
+  rw [← C25_refines_ticket_lock]
+  constructor
+  · intro h
+    apply C25_cleanup_key
+    have h1 : ((run acts).slot k).inside.head? = none := congrArg TSt.holder h
+    have h2 := congrArg TSt.queue h
+    simp only [absK] at h2
+    have hin : ((run acts).slot k).inside = [] := List.head?_eq_none_iff.mp h1
+    simp only [ids, hin, List.nil_append]
+    cases hl : ((run acts).slot k).lock with
+    | none => rfl
+    | some l =>
+      rw [hl] at h2
+      have : l.waiters = [] := List.map_eq_nil_iff.mp h2
+      simp [this]
+  · intro h; rw [h]; rfl
+
+/-! ## FIFO over histories -/
+
+/-- No overtaking, for every history.  Let `a` be a live (queued, not cancelled) waiter
+on `k` and `b ≠ a` any agent that is not inside and is either not present or queued
+behind `a` (`behind`).  Along ANY continuation in which `a` is not cancelled — newcomers,
+cancellations of others, `b` leaving and re-queueing, actions on other keys — whenever
+`b` is inside the critical section, `a` has been inside it before (or is now: impossible by
+`C25_mutex`).  Together with `C25_fifo_progress` this is full FIFO service among
+uncancelled waiters; `C25_fifo_no_barging` is its one-step instance for an absent `b`. -/
+theorem C25_fifo_no_overtaking (pre acts : List Act) (k a b : Nat)
+    (hl : live ((run pre).slot k) a = true) (hab : a ≠ b)
+    (hb : behind ((run pre).slot k) a b = true)
+    (hnc : (⟨k, .cancel a⟩ : Act) ∉ acts) (n : Nat)
+    (hin : b ∈ ((run (pre ++ acts.take n)).slot k).inside) :
+    ∃ m, m ≤ n ∧ a ∈ ((run (pre ++ acts.take m)).slot k).inside := by
+  rw [run_append] at hin
+  obtain ⟨m, hm, hma⟩ := c25x_no_overtake acts (ginv_run pre) hl hab (c25x_behind_sound hb) hnc n hin
+  exact ⟨m, hm, by rw [run_append]; exact hma⟩
+
+/-- non-vacuity: 3 waits behind 2 behind holder 1; 9 is a newcomer-to-be; 3 gets in at step 6 of
+the continuation, 2 was in after step 2. -/
+example :
+    let pre : List Act := [⟨7, .enter 1⟩, ⟨7, .enter 2⟩, ⟨7, .enter 3⟩]
+    let acts : List Act := [⟨7, .exit 1⟩, ⟨7, .resume 2⟩, ⟨7, .enter 9⟩, ⟨7, .cancel 9⟩, ⟨7, .exit 2⟩, ⟨7, .resume 3⟩]
+    live ((run pre).slot 7) 2 = true ∧ behind ((run pre).slot 7) 2 3 = true ∧ behind ((run pre).slot 7) 2 9 = true ∧
+    (⟨7, .cancel 2⟩ : Act) ∉ acts ∧ 3 ∈ ((run (pre ++ acts.take 6)).slot 7).inside ∧
+    2 ∈ ((run (pre ++ acts.take 2)).slot 7).inside := by decide
+
+/-! ## the rest of the anchored source, and the `asyncio.Lock` the model is written over -/
+
+/-- Re-read from `_keyed_lock.py` on every run: the constructor starts with no main lock and
+empty `_locks`/`_refs` (the model's `init`); `_get_main_lock` creates the main lock once and
+returns the same object afterwards (one `main` bit); the per-key lock is an `asyncio.Lock()`
+created only under `if key not in self._locks` (`register`); at refcount zero exactly
+`_locks[key]` and `_refs[key]` are deleted (`deregister`). -/
+theorem C25_source_shape_ext :
+    initEmptyState = true ∧ mainLockLazyOnce = true ∧ keyLockIsAsyncioLock = true ∧
+    createGuardedByAbsent = true ∧ delBothAtZero = true := by decide
+
+/-- Re-read from the `asyncio/locks.py` of the interpreter that runs the correspondence: the
+statements of `Lock.acquire`/`release`/`_wake_up_first` that `Lock.fastPath`, the FIFO append,
+`removeW` (in the `finally` around the single `await`), `wakeFirst` on the cancellation path only
+when unlocked, `release` and "wake only a head that is not done" are modelled after. -/
+theorem C25_asyncio_lock_shape :
+    lockFastPathShape = true ∧ lockAppendsFifo = true ∧ lockRemoveInFinally = true ∧
+    lockCancelWakesIfUnlocked = true ∧ lockReleaseShape = true ∧ lockWakeFirstShape = true ∧
+    lockAcquireAwaits = 1 := by decide
